@@ -10,7 +10,9 @@ search).  What is proved:
 * the **frame**: every key that `update` does not own comes out with exactly the value — the same
   reference — it went in with (so nested kinematics lists, grids, CKM lists are shared, never
   rebuilt or edited);
-* **idempotence**: upgrading an already upgraded pair of cards changes nothing.
+* **idempotence** (`update_idempotent`): upgrading an already upgraded pair of cards changes
+  nothing — every step of `update` is the identity on its own output and no later step touches
+  what an earlier one reads or writes.
 -/
 import YadismModel.Model.Compat
 import Mathlib.Data.List.Basic
@@ -163,6 +165,323 @@ theorem nested_objects_shared (t o t' o' : Card) (h : update t o = .ok (t', o'))
     (i : Nat) (hk : key ∉ obsOwned) (hv : o.get? key = some (.obj i)) :
     o'.get? key = some (.obj i) := by
   rw [(update_frame t o t' o' h).2 key hk, hv]
+
+/-! ## Idempotence -/
+
+theorem set_of_get (c : Card) (k : String) (v : Val) (h : c.get? k = some v) : c.set k v = c := by
+  induction c with
+  | nil => simp [Card.get?] at h
+  | cons e es ih =>
+    obtain ⟨ke, ve⟩ := e
+    simp only [Card.get?] at h
+    simp only [Card.set]
+    by_cases hk : ke = k
+    · simp only [hk, if_true] at h ⊢
+      simp only [Option.some.injEq] at h
+      rw [h]
+    · simp only [hk, if_false] at h ⊢
+      rw [ih h]
+
+theorem erase_of_get_none (c : Card) (k : String) (h : c.get? k = none) : c.erase k = c := by
+  induction c with
+  | nil => rfl
+  | cons e es ih =>
+    obtain ⟨ke, ve⟩ := e
+    simp only [Card.get?] at h
+    simp only [Card.erase]
+    by_cases hk : ke = k
+    · simp [hk] at h
+    · simp only [hk, if_false] at h ⊢
+      rw [ih h]
+
+def thrKey (k : Nat) : String := "k" ++ hqfl.getD k "" ++ "Thr"
+def zmKey (k : Nat) : String := "ZM" ++ hqfl.getD k ""
+
+/-- the card already carries what `update_fns` writes for heavy flavour `k` -/
+def PostFl (fns : Scheme) (n k : Nat) (c : Card) : Prop :=
+  (match (updateFns fns n k).1 with
+    | .keep => True
+    | .zero => c.get? (thrKey k) = some (.num 0)
+    | .inf => c.get? (thrKey k) = some .inf)
+  ∧ (match (updateFns fns n k).2 with
+    | some b => c.get? (zmKey k) = some (.bool b)
+    | none => True)
+
+theorem setFlavour_of_post (fns : Scheme) (n k : Nat) (c : Card) (h : PostFl fns n k c) :
+    setFlavour fns n k c = c := by
+  unfold PostFl thrKey zmKey at h
+  unfold setFlavour
+  obtain ⟨h1, h2⟩ := h
+  cases h3 : (updateFns fns n k).1 <;> cases h4 : (updateFns fns n k).2 <;>
+    simp only [h3, h4] at h1 h2 ⊢ <;>
+    first
+    | rfl
+    | (rw [set_of_get _ _ _ h1, set_of_get _ _ _ h2])
+    | (rw [set_of_get _ _ _ h2])
+    | (rw [set_of_get _ _ _ h1])
+
+/-- a step that leaves the two keys of flavour `k` alone preserves `PostFl` -/
+theorem postFl_of_get (fns : Scheme) (n k : Nat) (c c' : Card)
+    (h1 : c'.get? (thrKey k) = c.get? (thrKey k)) (h2 : c'.get? (zmKey k) = c.get? (zmKey k))
+    (h : PostFl fns n k c) : PostFl fns n k c' := by
+  unfold PostFl at *
+  rw [h1, h2]
+  exact h
+
+theorem setFlavour_get (fns : Scheme) (n k : Nat) (hk : k < 3) (c : Card) (key : String)
+    (h1 : key ≠ thrKey k) (h2 : key ≠ zmKey k) : (setFlavour fns n k c).get? key = c.get? key := by
+  have hk' : k = 0 ∨ k = 1 ∨ k = 2 := by omega
+  rcases hk' with rfl | rfl | rfl <;> simp [thrKey, zmKey, hqfl] at h1 h2 <;> unfold setFlavour <;>
+    cases (updateFns fns n _).1 <;> cases (updateFns fns n _).2 <;> simp [hqfl, get?_set, h1, h2]
+
+theorem setFlavour_post (fns : Scheme) (n k : Nat) (hk : k < 3) (c : Card) :
+    PostFl fns n k (setFlavour fns n k c) := by
+  have hk' : k = 0 ∨ k = 1 ∨ k = 2 := by omega
+  rcases hk' with rfl | rfl | rfl <;> unfold PostFl setFlavour <;>
+    cases h3 : (updateFns fns n _).1 <;> cases h4 : (updateFns fns n _).2 <;>
+    simp [thrKey, zmKey, hqfl, get?_set]
+
+/-! ### the other steps: what they read/write, when they are the identity -/
+
+theorem setPtodis_get (c : Card) (key : String) (h : key ≠ "PTODIS") : (setPtodis c).get? key = c.get? key := by
+  unfold setPtodis; split <;> simp [get?_set, h]
+theorem setFonll_get (c : Card) (key : String) (h : key ≠ "FONLLParts") : (setFonll c).get? key = c.get? key := by
+  unfold setFonll; split <;> simp [get?_set, h]
+theorem setRen_get (c : Card) (key : String) (h : key ≠ "RenScaleVar") : (setRen c).get? key = c.get? key := by
+  unfold setRen; split <;> simp [get?_set, h]
+theorem setFact_get (c : Card) (key : String) (h : key ≠ "FactScaleVar") : (setFact c).get? key = c.get? key := by
+  unfold setFact; split <;> simp [get?_set, h]
+theorem moveAlpha_get (c : Card) (key : String) (h1 : key ≠ "alphaqed") (h2 : key ≠ "alphaem") :
+    (moveAlpha c).get? key = c.get? key := by
+  unfold moveAlpha; split <;> simp [get?_set, get?_erase, h1, h2]
+theorem moveQED_get (c : Card) (key : String) (h1 : key ≠ "QED") (h2 : key ≠ "order") :
+    (moveQED c).get? key = c.get? key := by
+  unfold moveQED; split <;> simp [get?_set, get?_erase, h1, h2]
+
+def CondP (c : Card) : Prop :=
+  ∃ v, c.get? "PTODIS" = some v ∧ (v = .none → (c.get? "PTO").getD .none = .none)
+def CondF (c : Card) : Prop := ∃ v, c.get? "FONLLParts" = some v ∧ v ≠ .none
+def CondR (c : Card) : Prop := (c.get? "RenScaleVar").isSome = true
+def CondS (c : Card) : Prop := (c.get? "FactScaleVar").isSome = true
+def CondA (c : Card) : Prop := c.get? "alphaqed" = none
+def CondQ (c : Card) : Prop := c.get? "QED" = none
+
+theorem setPtodis_of (c : Card) (h : CondP c) : setPtodis c = c := by
+  obtain ⟨v, hv, hn⟩ := h
+  unfold setPtodis
+  rw [hv]
+  by_cases hvn : v = .none
+  · subst hvn
+    simp only
+    rw [hn rfl]
+    exact set_of_get _ _ _ hv
+  · cases v <;> simp_all
+
+theorem setPtodis_cond (c : Card) : CondP (setPtodis c) := by
+  unfold CondP setPtodis
+  split
+  · refine ⟨(c.get? "PTO").getD .none, by simp [get?_set], ?_⟩
+    intro h
+    simp [get?_set, h]
+  · refine ⟨(c.get? "PTO").getD .none, by simp [get?_set], ?_⟩
+    intro h
+    simp [get?_set, h]
+  · rename_i h1 h2
+    cases hg : c.get? "PTODIS" with
+    | none => exact absurd hg h2
+    | some v =>
+      refine ⟨v, rfl, ?_⟩
+      intro hv
+      subst hv
+      exact absurd hg h1
+
+theorem setFonll_of (c : Card) (h : CondF c) : setFonll c = c := by
+  obtain ⟨v, hv, hn⟩ := h
+  unfold setFonll
+  rw [hv]
+  cases v <;> simp_all
+
+theorem setFonll_cond (c : Card) : CondF (setFonll c) := by
+  unfold CondF setFonll
+  split
+  · exact ⟨.str "full", by simp [get?_set], by simp⟩
+  · exact ⟨.str "full", by simp [get?_set], by simp⟩
+  · rename_i h1 h2
+    cases hg : c.get? "FONLLParts" with
+    | none => exact absurd hg h2
+    | some v => exact ⟨v, rfl, fun hv => h1 (hv ▸ hg)⟩
+
+theorem setRen_of (c : Card) (h : CondR c) : setRen c = c := by
+  unfold setRen CondR at *; simp [Option.isNone_iff_eq_none, Option.isSome_iff_ne_none.mp h]
+theorem setRen_cond (c : Card) : CondR (setRen c) := by
+  unfold CondR setRen
+  split
+  · simp [get?_set]
+  · rename_i h; simpa [Option.isSome_iff_ne_none, Option.isNone_iff_eq_none] using h
+theorem setFact_of (c : Card) (h : CondS c) : setFact c = c := by
+  unfold setFact CondS at *; simp [Option.isNone_iff_eq_none, Option.isSome_iff_ne_none.mp h]
+theorem setFact_cond (c : Card) : CondS (setFact c) := by
+  unfold CondS setFact
+  split
+  · simp [get?_set]
+  · rename_i h; simpa [Option.isSome_iff_ne_none, Option.isNone_iff_eq_none] using h
+
+theorem moveAlpha_of (c : Card) (h : CondA c) : moveAlpha c = c := by
+  unfold moveAlpha CondA at *; rw [h]
+theorem moveAlpha_cond (c : Card) : CondA (moveAlpha c) := by
+  unfold CondA moveAlpha
+  split
+  · simp [get?_set, get?_erase]
+  · assumption
+theorem moveQED_of (c : Card) (h : CondQ c) : moveQED c = c := by
+  unfold moveQED CondQ at *; rw [h]
+theorem moveQED_cond (c : Card) : CondQ (moveQED c) := by
+  unfold CondQ moveQED
+  split
+  · simp [get?_set, get?_erase]
+  · simp [get?_set, get?_erase]
+  · assumption
+
+/-- everything `update` does to the theory card after the three flavour steps -/
+def tailA (c : Card) : Card := moveQED (moveAlpha (setFact (setRen (setFonll (setPtodis c)))))
+
+theorem tailA_get (c : Card) (key : String)
+    (h : key ∉ ["PTODIS", "FONLLParts", "RenScaleVar", "FactScaleVar", "alphaqed", "alphaem", "QED", "order"]) :
+    (tailA c).get? key = c.get? key := by
+  simp only [List.mem_cons, List.mem_nil_iff, or_false, not_or] at h
+  unfold tailA
+  rw [moveQED_get _ _ h.2.2.2.2.2.2.1 h.2.2.2.2.2.2.2, moveAlpha_get _ _ h.2.2.2.2.1 h.2.2.2.2.2.1,
+    setFact_get _ _ h.2.2.2.1, setRen_get _ _ h.2.2.1, setFonll_get _ _ h.2.1, setPtodis_get _ _ h.1]
+
+theorem thr_zm_keys (k : Nat) (hk : k < 3) :
+    thrKey k ∉ ["PTODIS", "FONLLParts", "RenScaleVar", "FactScaleVar", "alphaqed", "alphaem", "QED", "order"]
+    ∧ zmKey k ∉ ["PTODIS", "FONLLParts", "RenScaleVar", "FactScaleVar", "alphaqed", "alphaem", "QED", "order"] := by
+  have hk' : k = 0 ∨ k = 1 ∨ k = 2 := by omega
+  rcases hk' with rfl | rfl | rfl <;> simp [thrKey, zmKey, hqfl]
+
+theorem keys_distinct (j k : Nat) (hj : j < 3) (hk : k < 3) (hjk : j ≠ k) :
+    thrKey k ≠ thrKey j ∧ thrKey k ≠ zmKey j ∧ zmKey k ≠ thrKey j ∧ zmKey k ≠ zmKey j := by
+  have hj' : j = 0 ∨ j = 1 ∨ j = 2 := by omega
+  have hk' : k = 0 ∨ k = 1 ∨ k = 2 := by omega
+  rcases hj' with rfl | rfl | rfl <;> rcases hk' with rfl | rfl | rfl <;>
+    first | (exact absurd rfl hjk) | simp [thrKey, zmKey, hqfl]
+
+/-- the theory card after `update`: `tailA` of the three flavour steps -/
+def upgraded (fns : Scheme) (n : Nat) (t : Card) : Card :=
+  tailA (setFlavour fns n 2 (setFlavour fns n 1 (setFlavour fns n 0 t)))
+
+theorem upgraded_post (fns : Scheme) (n : Nat) (t : Card) (k : Nat) (hk : k < 3) :
+    PostFl fns n k (upgraded fns n t) := by
+  unfold upgraded
+  obtain ⟨ha, hb⟩ := thr_zm_keys k hk
+  apply postFl_of_get fns n k _ _ (tailA_get _ _ ha) (tailA_get _ _ hb)
+  have hk' : k = 0 ∨ k = 1 ∨ k = 2 := by omega
+  rcases hk' with rfl | rfl | rfl
+  · obtain ⟨a1, a2, a3, a4⟩ := keys_distinct 2 0 (by omega) (by omega) (by omega)
+    obtain ⟨b1, b2, b3, b4⟩ := keys_distinct 1 0 (by omega) (by omega) (by omega)
+    apply postFl_of_get fns n 0 _ _ (setFlavour_get _ _ 2 (by omega) _ _ a1 a2) (setFlavour_get _ _ 2 (by omega) _ _ a3 a4)
+    apply postFl_of_get fns n 0 _ _ (setFlavour_get _ _ 1 (by omega) _ _ b1 b2) (setFlavour_get _ _ 1 (by omega) _ _ b3 b4)
+    exact setFlavour_post fns n 0 (by omega) t
+  · obtain ⟨a1, a2, a3, a4⟩ := keys_distinct 2 1 (by omega) (by omega) (by omega)
+    apply postFl_of_get fns n 1 _ _ (setFlavour_get _ _ 2 (by omega) _ _ a1 a2) (setFlavour_get _ _ 2 (by omega) _ _ a3 a4)
+    exact setFlavour_post fns n 1 (by omega) _
+  · exact setFlavour_post fns n 2 (by omega) _
+
+theorem upgraded_conds (fns : Scheme) (n : Nat) (t : Card) :
+    CondP (upgraded fns n t) ∧ CondF (upgraded fns n t) ∧ CondR (upgraded fns n t)
+    ∧ CondS (upgraded fns n t) ∧ CondA (upgraded fns n t) ∧ CondQ (upgraded fns n t) := by
+  unfold upgraded tailA
+  generalize setFlavour fns n 2 (setFlavour fns n 1 (setFlavour fns n 0 t)) = c
+  refine ⟨?_, ?_, ?_, ?_, ?_, ?_⟩
+  · have h := setPtodis_cond c
+    unfold CondP at *
+    simp only [moveQED_get _ "PTODIS" (by decide) (by decide), moveAlpha_get _ "PTODIS" (by decide) (by decide),
+      setFact_get _ "PTODIS" (by decide), setRen_get _ "PTODIS" (by decide), setFonll_get _ "PTODIS" (by decide),
+      moveQED_get _ "PTO" (by decide) (by decide), moveAlpha_get _ "PTO" (by decide) (by decide),
+      setFact_get _ "PTO" (by decide), setRen_get _ "PTO" (by decide), setFonll_get _ "PTO" (by decide)]
+    exact h
+  · have h := setFonll_cond (setPtodis c)
+    unfold CondF at *
+    simp only [moveQED_get _ "FONLLParts" (by decide) (by decide), moveAlpha_get _ "FONLLParts" (by decide) (by decide),
+      setFact_get _ "FONLLParts" (by decide), setRen_get _ "FONLLParts" (by decide)]
+    exact h
+  · have h := setRen_cond (setFonll (setPtodis c))
+    unfold CondR at *
+    simp only [moveQED_get _ "RenScaleVar" (by decide) (by decide), moveAlpha_get _ "RenScaleVar" (by decide) (by decide),
+      setFact_get _ "RenScaleVar" (by decide)]
+    exact h
+  · have h := setFact_cond (setRen (setFonll (setPtodis c)))
+    unfold CondS at *
+    simp only [moveQED_get _ "FactScaleVar" (by decide) (by decide), moveAlpha_get _ "FactScaleVar" (by decide) (by decide)]
+    exact h
+  · have h := moveAlpha_cond (setFact (setRen (setFonll (setPtodis c))))
+    unfold CondA at *
+    simp only [moveQED_get _ "alphaqed" (by decide) (by decide)]
+    exact h
+  · exact moveQED_cond _
+
+/-- the upgraded theory card is a fixed point of every step -/
+theorem upgraded_fixed (fns : Scheme) (n : Nat) (t : Card) :
+    tailA (setFlavour fns n 2 (setFlavour fns n 1 (setFlavour fns n 0 (upgraded fns n t)))) = upgraded fns n t := by
+  rw [setFlavour_of_post _ _ 0 _ (upgraded_post fns n t 0 (by omega)),
+    setFlavour_of_post _ _ 1 _ (upgraded_post fns n t 1 (by omega)),
+    setFlavour_of_post _ _ 2 _ (upgraded_post fns n t 2 (by omega))]
+  obtain ⟨hP, hF, hR, hS, hA, hQ⟩ := upgraded_conds fns n t
+  unfold tailA
+  rw [setPtodis_of _ hP, setFonll_of _ hF, setRen_of _ hR, setFact_of _ hS, moveAlpha_of _ hA, moveQED_of _ hQ]
+
+/-- **idempotence**: upgrading an already upgraded pair of cards changes nothing -/
+theorem update_idempotent (t o t' o' : Card) (h : update t o = .ok (t', o')) :
+    update t' o' = .ok (t', o') := by
+  have hframe := update_frame t o t' o' h
+  unfold update at h
+  split at h
+  · next t1 o1 hf ht =>
+    simp only [Except.ok.injEq, Prod.mk.injEq] at h
+    obtain ⟨h1, h2⟩ := h
+    -- shape of the first pass on the theory card
+    unfold updateFnsCard at hf
+    split at hf
+    · next s r hs hr =>
+      split at hf
+      · next fns hfns =>
+        simp only [Except.ok.injEq] at hf
+        have ht' : t' = upgraded fns r.num.toNat t := by
+          rw [← h1, ← hf]; rfl
+        -- second pass, theory
+        have hFNS : t'.get? "FNS" = some (.str s) := by rw [hframe.1 "FNS" (by decide), hs]
+        have hNf : t'.get? "NfFF" = some (.num r) := by rw [hframe.1 "NfFF" (by decide), hr]
+        have hth : updateFnsCard t' = .ok (setDefaults (setFlavour fns r.num.toNat 2 (setFlavour fns r.num.toNat 1 (setFlavour fns r.num.toNat 0 t')))) := by
+          unfold updateFnsCard
+          simp only [hFNS, hNf, hfns]
+        -- second pass, observables
+        have hob : updateTarget o' = .ok o' := by
+          rw [← h2]
+          unfold updateTarget at ht ⊢
+          split at ht
+          · next s' hs' =>
+            split at ht
+            · next z a id hz hid =>
+              simp only [pure, Except.pure, Except.ok.injEq] at ht
+              rw [← ht]
+              simp [get?_set, pure, Except.pure]
+            · simp at ht
+          · next v hv hnot =>
+            simp only [pure, Except.pure, Except.ok.injEq] at ht
+            rw [← ht, hnot]
+            cases v <;> first | rfl | (exact absurd rfl (hv _))
+          · simp at ht
+        unfold update
+        rw [hth, hob]
+        simp only
+        have hfix := upgraded_fixed fns r.num.toNat t
+        rw [← ht'] at hfix
+        unfold tailA setDefaults updateSV at *
+        rw [hfix]
+      · simp at hf
+    · simp at hf
+  · simp at h
+  · simp at h
 
 /-! Non-vacuity and an executable instance of idempotence -/
 def sampleT : Card :=
